@@ -66,6 +66,29 @@ type haltCase struct {
 	Stride int   `json:"stride"`
 	Offset int   `json:"offset"`
 	Follow string `json:"follow"` // same | deeper | next
+	// Ponder > 0: the halted search is restricted to a line of that many plies
+	// (search.Context.Ponder, as the console driver's per-move breakdown does).
+	Ponder int `json:"ponder,omitempty"`
+}
+
+// ponderLine picks a legal line of up to k plies from the root.
+func ponderLine(b *board.Board, g *oracle.Game, k, offset int) []board.Move {
+	fb, fg := b.Fork(), g.Clone()
+	var line []board.Move
+	for i := 0; i < k; i++ {
+		legal := fg.Cur().Pos.Legal()
+		if len(legal) == 0 {
+			break
+		}
+		om := legal[(offset+i)%len(legal)]
+		rm, err := pushOracleMove(fb, om)
+		if err != nil {
+			break
+		}
+		fg.Push(om)
+		line = append(line, rm)
+	}
+	return line
 }
 
 const maxPointsPerCase = 120
@@ -96,7 +119,23 @@ func checkC12Inner(c haltCase, cur *int) error {
 	// clean run: number of polls
 	s, rcfg := cfg.make(c.Param)
 	clean := newPollCtx(0)
-	if _, _, _, err := s.Search(clean, &search.Context{TT: newRecTT(c.TableBytes)}, b.Fork(), c.Depth); err != nil {
+	var ponder []board.Move
+	var ponderBase eval.Score
+	if c.Ponder > 0 {
+		ponder = ponderLine(b, g, c.Ponder, c.Offset)
+		where += fmt.Sprintf(", restricted to the line %s", pvText(ponder))
+		if cfg.PositionDetermined && len(ponder) > 0 {
+			sp, _ := cfg.make(c.Param)
+			if _, ponderBase, _, err = sp.Search(ctxbg, &search.Context{TT: search.NoTranspositionTable{}, Ponder: append([]board.Move(nil), ponder...)}, b.Fork(), c.Depth); err != nil {
+				return err
+			}
+		}
+	}
+	var cleanTT search.TranspositionTable = newRecTT(c.TableBytes)
+	if len(ponder) > 0 {
+		cleanTT = search.NoTranspositionTable{}
+	}
+	if _, _, _, err := s.Search(clean, &search.Context{TT: cleanTT, Ponder: append([]board.Move(nil), ponder...)}, b.Fork(), c.Depth); err != nil {
 		return fmt.Errorf("%s: uncancelled search failed: %v", where, err)
 	}
 	P := clean.polls
@@ -193,7 +232,15 @@ func checkC12Inner(c haltCase, cur *int) error {
 		pc.onFire = func() { depthAtFire = sb.Ply() - before.Ply }
 		rec.cur, rec.epoch = sb, 1
 		rec.halted = func() bool { return pc.fired }
-		nodes, score, pv, serr := s.Search(pc, &search.Context{TT: rec}, sb, c.Depth)
+		hctx := &search.Context{TT: rec, Ponder: append([]board.Move(nil), ponder...)}
+		if len(ponder) > 0 {
+			// as the only caller of restricted searches does (console breakdown): no table. (A restricted
+			// search given a real table stores the restricted values of the positions on its line as if
+			// they were full-search values; no caller combines the two, so that is outside the domain.)
+			hctx.TT = search.NoTranspositionTable{}
+		}
+		htt := hctx.TT
+		nodes, score, pv, serr := s.Search(pc, hctx, sb, c.Depth)
 		at := fmt.Sprintf("%s, cancelled at poll %d of %d (%d moves deep)", where, n, P, depthAtFire)
 		// (1) reports that it was halted rather than a score
 		if serr != search.ErrHalted {
@@ -214,7 +261,18 @@ func checkC12Inner(c haltCase, cur *int) error {
 		if depthAtFire > 0 {
 			inside++
 		}
-		// (3) nothing left behind
+		// (3) nothing left behind: the caller's search context is what the caller built
+		if !samePV(hctx.Ponder, ponder) || hctx.TT != htt {
+			return fmt.Errorf("%s: the halted search changed the caller's search context: the line to search is now %q", at, pvText(hctx.Ponder))
+		}
+		if len(ponder) > 0 && cfg.PositionDetermined {
+			// the same restricted search with that context (fresh table): what it returns when nothing was halted before
+			sp, _ := cfg.make(c.Param)
+			_, again, _, perr := sp.Search(ctxbg, hctx, b.Fork(), c.Depth)
+			if perr != nil || again != ponderBase {
+				return fmt.Errorf("%s: the same restricted search run afterwards with the caller's context returns %v (%v); had the halted search never run: %v", at, again, perr, ponderBase)
+			}
+		}
 		for _, st := range rec.stores {
 			if st.Late {
 				lateStores++
@@ -223,7 +281,7 @@ func checkC12Inner(c haltCase, cur *int) error {
 				}
 			}
 		}
-		if !useTable {
+		if !useTable || len(ponder) > 0 {
 			continue
 		}
 		// (3a) a following search on the same table
@@ -277,6 +335,9 @@ func checkC12Inner(c haltCase, cur *int) error {
 		}
 	}
 	labels := []string{"cfg:" + c.Config, "follow:" + c.Follow}
+	if len(ponder) > 0 {
+		labels = append(labels, fmt.Sprintf("restricted-line:%d", len(ponder)))
+	}
 	if useTable {
 		labels = append(labels, "table-compared")
 	}
@@ -284,9 +345,9 @@ func checkC12Inner(c haltCase, cur *int) error {
 		labels = append(labels, "stores-after-cancellation-observed")
 	}
 	for _, n := range points {
-		stats.Distinct("C12/halt", stats.FP(c.FEN, fmt.Sprint(c.Moves), c.Config, c.Param, c.Depth, c.TableBytes, c.Follow, n))
+		stats.Distinct("C12/halt", stats.FP(c.FEN, fmt.Sprint(c.Moves), c.Config, c.Param, c.Depth, c.TableBytes, c.Follow, c.Ponder, n))
 	}
-	stats.Case("C12/halt", stats.FP(c.FEN, fmt.Sprint(c.Moves), c.Config, c.Param, c.Depth, c.TableBytes, c.Follow, "root"), inside > 0, labels...)
+	stats.Case("C12/halt", stats.FP(c.FEN, fmt.Sprint(c.Moves), c.Config, c.Param, c.Depth, c.TableBytes, c.Follow, c.Ponder, "root"), inside > 0, labels...)
 	stats.Note("C12/halt", "cancellation_points_tried", int64(len(points)))
 	stats.Note("C12/halt", "cancellation_points_inside_search", int64(inside))
 	stats.Note("C12/halt", "polls_total", int64(P))
@@ -306,7 +367,11 @@ func genHaltCase(t *rapid.T) haltCase {
 	if err == nil {
 		sc.Depth = min(sc.Depth, estimateDepth(g, cfg, 4, 1500))
 	}
-	return haltCase{searchCase: sc, TableBytes: rapid.SampledFrom(tableSizes).Draw(t, "table"),
+	ponder := 0
+	if rapid.IntRange(0, 3).Draw(t, "restricted") == 0 {
+		ponder = rapid.IntRange(1, 3).Draw(t, "ponder")
+	}
+	return haltCase{Ponder: ponder, searchCase: sc, TableBytes: rapid.SampledFrom(tableSizes).Draw(t, "table"),
 		Stride: rapid.IntRange(1, 7).Draw(t, "stride"), Offset: rapid.IntRange(0, 50).Draw(t, "offset"),
 		Follow: rapid.SampledFrom([]string{"same", "same", "deeper", "next"}).Draw(t, "follow")}
 }
